@@ -517,7 +517,42 @@ func Gen(t *rapid.T, cfg Cfg) V {
 	return gen(t, cfg, cfg.Depth)
 }
 
+// BigCounts are collection sizes on either side of the CBOR head boundaries (23|24, 255|256).
+var BigCounts = []int{23, 24, 25, 255, 256, 257}
+
 func gen(t *rapid.T, cfg Cfg, depth int) V {
+	if cfg.Big && depth == cfg.Depth && depth > 0 && rapid.IntRange(0, 39).Draw(t, "bigcoll") == 0 {
+		// a long list, a map with many entries, or a deep chain of single-element collections
+		n := rapid.SampledFrom(BigCounts).Draw(t, "bigcount")
+		switch rapid.IntRange(0, 2).Draw(t, "bigshape") {
+		case 0:
+			out := V{K: "list"}
+			for i := 0; i < n; i++ {
+				out.L = append(out.L, Int(int64(i%7)))
+			}
+			return out
+		case 1:
+			out := V{K: "map"}
+			for i := 0; i < n; i++ {
+				out.M = append(out.M, KV{K: fmt.Sprintf("k%03d", (i*37)%1000), V: Int(int64(i))})
+			}
+			if out.HasDupKeys() {
+				return Int(0)
+			}
+			return out
+		default:
+			d := rapid.SampledFrom([]int{8, 16, 33, 64, 100}).Draw(t, "bigdepth")
+			v := Str("deep")
+			for i := 0; i < d; i++ {
+				if i%2 == 0 {
+					v = List(v)
+				} else {
+					v = Map(E("d", v))
+				}
+			}
+			return v
+		}
+	}
 	if depth <= 0 || cfg.Scalars || rapid.IntRange(0, 9).Draw(t, "leaf") < 5 {
 		return GenScalar(t, cfg)
 	}
